@@ -562,6 +562,7 @@ class Rec:
         self.failures = []      # (what, key)
         self.counts = {}
         self.renders = None     # Coq text of a check_result case
+        self.extra_renders = []  # more of them (histories: one per probed result)
         self.tops = []          # Coq texts of check_top cases
         self.strs = []          # Coq texts of check_str cases
         self.nontrivial = False
@@ -641,6 +642,8 @@ def run_case(case):
     kind = case['kind']
     if kind in ('strtable', 'coltable'):
         return run_strtable(rec, case)
+    if kind == 'history':
+        return run_history(rec, case)
     intern = Intern()
     result = build_result(case)
     verdict = bool(result)
@@ -760,6 +763,126 @@ def run_case(case):
     rec.renders = f'({abstract}, {clist(renders)})'
     if detail is not None and case.get('ops'):
         run_ops(rec, case, detail, intern)
+    return rec
+
+
+# --------------------------------------------------------------------------
+# histories in one process: render, modify the returned templates in place, render again
+
+def _set_flags(high, value):
+    '''change a highlight container in place (what a caller holding the template can do)'''
+    if isinstance(high, np.ndarray):
+        if high.flags.writeable:
+            high[...] = value
+    elif isinstance(high, list):
+        for i, item in enumerate(high):
+            if isinstance(item, (list, np.ndarray)):
+                _set_flags(item, value)
+            else:
+                high[i] = value
+
+
+def _mutable_parts(tmpl):
+    '''the template object and its mutable members that carry marks or structure (the columns are
+    the arrays of the result's own datasets and are left alone)'''
+    from valjean.javert.templates import TableTemplate
+    parts = [tmpl]
+    if isinstance(tmpl, TableTemplate):
+        parts.append(tmpl.highlights)
+        parts.append(tmpl.headers)
+        stack = list(tmpl.highlights)
+        while stack:
+            item = stack.pop()
+            if isinstance(item, np.ndarray):
+                parts.append(item)
+            elif isinstance(item, list):
+                parts.append(item)
+                stack.extend(x for x in item if isinstance(x, (list, np.ndarray)))
+    return parts
+
+
+def run_history(rec, case):
+    '''(1) render the sub-cases at every verbosity with every representer, (2) use the in-place API
+    of the templates handed out (TextTemplate.join / text +=, TableTemplate highlights and join),
+    (3) render the same sub-cases again from fresh result objects: everything the ordinary check
+    requires must still hold (run_case: marks iff false, rows, cells, model), and no two rendering
+    calls may hand out the same template object or share a mutable member.'''
+    from valjean.javert.representation import Representation
+    from valjean.javert.templates import TableTemplate, TextTemplate
+    from valjean.javert.verbosity import Verbosity
+    rec.count('kind_history')
+    mode = case.get('mut', 'mark')
+    calls = []        # (description, templates) of every rendering call; kept alive for the identity check
+    for isub, sub in enumerate(case['subs']):
+        for rep in REPS:
+            for vname in VERBS:
+                try:
+                    tmpls = Representation(representer(rep), verbosity=Verbosity[vname])(build_result(sub))
+                except Exception:  # noqa  (plot_repr on unit dimensions etc.: the ordinary cases report it)
+                    continue
+                tmpls = [t for t in tmpls if isinstance(t, (TableTemplate, TextTemplate))]
+                calls.append((f'sub-case {isub} {rep} {vname}', tmpls))
+    rec.count('history_rendering_calls', len(calls))
+    # ---- no aliasing between rendering calls
+    owner, shared = {}, None
+    for icall, (what, tmpls) in enumerate(calls):
+        for tmpl in tmpls:
+            for part in _mutable_parts(tmpl):
+                first = owner.setdefault(id(part), icall)
+                if first != icall and shared is None:
+                    shared = (calls[first][0], what, type(part).__name__,
+                              getattr(part, 'text', None) if isinstance(part, TextTemplate) else None)
+    if shared:
+        rec.fail(f'two rendering calls ({shared[0]}; {shared[1]}) hand out the same mutable {shared[2]} object'
+                 + (f' (text {shared[3]!r})' if shared[3] else '')
+                 + ': what a caller does to the template of one result shows up in other renderings',
+                 'templates-shared-between-renderings')
+    # ---- in-place use of the templates by their holder
+    texts = [t for _, tmpls in calls for t in tmpls if isinstance(t, TextTemplate)]
+    ko_texts = [t for t in texts if ':hl:`' in t.text]
+    ok_texts = [t for t in texts if ':hl:`' not in t.text]
+    tables = [t for _, tmpls in calls for t in tmpls if isinstance(t, TableTemplate)]
+    done = set()
+    for tmpl in texts:
+        if id(tmpl) in done:
+            continue
+        done.add(id(tmpl))
+        if mode == 'unmark':
+            tmpl.text = tmpl.text.replace(':hl:`KO`', 'fine')
+            if ok_texts and ok_texts[0] is not tmpl:
+                tmpl.text = ''
+                tmpl.join(ok_texts[0])
+        elif mode == 'join':
+            others = [o for o in (ko_texts[:1] + ok_texts[:1]) if o is not tmpl]
+            tmpl.join(*others)
+        else:
+            tmpl.text += '\n\n.. role:: hl\n\nannotated by the caller: :hl:`KO`\n\n'
+    for tab in tables:
+        for high in tab.highlights:
+            _set_flags(high, mode != 'unmark')
+        if mode == 'join':
+            mates = [o for o in tables if o is not tab and o.headers == tab.headers]
+            try:
+                tab.join(*mates[:1])
+            except Exception:  # noqa
+                pass
+    # ---- later renderings (fresh result objects): the whole ordinary check
+    for isub, sub in enumerate(case['subs']):
+        probe = run_case(dict(sub))
+        for what, key in probe.failures:
+            if key == KNOWN_CORR:
+                rec.failures.append((what, key))
+            else:
+                rec.failures.append((f'after earlier renderings were modified in place ({mode}) by their '
+                                     f'holder, sub-case {isub}: {what.split(" :: ")[0]} :: '
+                                     f'{json.dumps(case)[:600]}', 'history-' + key))
+        for key, num in probe.counts.items():
+            if key.startswith('kind_') or key.startswith('verdict_'):
+                continue
+            rec.count('history_' + key if not key.startswith('history_') else key, num)
+        if probe.renders:
+            rec.extra_renders.append(probe.renders)
+        rec.nontrivial = rec.nontrivial or probe.nontrivial
     return rec
 
 
@@ -1153,6 +1276,19 @@ CORPUS = [
                  ['i1', [-5, 100]], ['b1', [True, False]], ['c16', [[1 / 3, 2.0], [0.0, -1 / 7]]], ['list', [1, 2.5]]],
      'mask': [[False, False], [True, False], [False, True], [False, False], [False, True], [True, False],
               [False, False], [False, True]]},
+    # histories: earlier renderings modified in place by their holder, then the same kinds again
+    {'kind': 'history', 'mut': 'join', 'subs': [
+        {'kind': 'student', 'shape': [3], 'bins': ['e'], 'fail': [[0, 0, 0]], 'ndf': None},
+        {'kind': 'student', 'shape': [3], 'bins': ['e'], 'fail': [[0, 1, 0]], 'ndf': None}]},
+    {'kind': 'history', 'mut': 'mark', 'subs': [
+        {'kind': 'equal', 'shape': [2], 'bins': ['c'], 'fail': [[0, 0]]},
+        {'kind': 'equal', 'shape': [2], 'bins': ['c'], 'fail': [[1, 0]]},
+        {'kind': 'meta', 'values': [['v0'], ['v0']]}, {'kind': 'meta', 'values': [['v0'], ['w0']]}]},
+    {'kind': 'history', 'mut': 'unmark', 'subs': [
+        {'kind': 'holm', 'shape': [3], 'bins': ['e'], 'fail': [[0, 1, 0], [0, 0, 0]], 'ndf': 20},
+        {'kind': 'holm', 'shape': [3], 'bins': ['e'], 'fail': [[0, 0, 0], [0, 0, 0]], 'ndf': 20},
+        {'kind': 'approx', 'shape': [2], 'bins': ['e'], 'fail': [[0, 1]]},
+        {'kind': 'approx', 'shape': [2], 'bins': ['e'], 'fail': [[0, 0]]}]},
     {'kind': 'tasks', 'counts': []},                                       # empty summary
     {'kind': 'tests', 'counts': []},
     {'kind': 'tasks', 'counts': [['FAILED', 2]]},                          # first row is a failure
@@ -1170,6 +1306,38 @@ CORPUS = [
     {'kind': 'strtable', 'headers': ['a', 'b'], 'cols': [['x', ''], ['', 'y']],
      'mask': [[False, True], [True, False]], 'safe': False},
 ]
+
+
+def gen_history_case(rng):
+    '''sub-cases of one kind with both outcomes (and sometimes one of another kind), and how the
+    holder of the first renderings modifies them in place'''
+    kind = rng.choice(['equal', 'approx', 'student', 'student', 'bonf', 'holm', 'meta', 'tasks', 'tests',
+                       'bylabels'])
+    if kind in DATA_KINDS + CORR_KINDS:
+        base = gen_data_case(rng, kind)
+        base.pop('ops', None)
+        nbin = int(np.prod(base['shape'])) if base['shape'] else 1
+        passing = dict(base, fail=[[0] * nbin for _ in base['fail']])
+        failing = dict(base, fail=[[0] * nbin for _ in base['fail']])
+        failing['fail'][-1] = list(failing['fail'][-1])
+        failing['fail'][-1][rng.randrange(nbin)] = 1
+        subs = [passing, failing] + ([base] if rng.random() < 0.4 else [])
+    elif kind == 'meta':
+        subs = [{'kind': 'meta', 'values': [['v0', 'v1'], ['v0', 'v1']]},
+                {'kind': 'meta', 'values': [['v0', 'v1'], ['v0', 'w1']]}, gen_meta_case(rng)]
+    elif kind in ('tasks', 'tests'):
+        okname, koname = ('DONE', 'FAILED') if kind == 'tasks' else ('SUCCESS', 'FAILURE')
+        subs = [{'kind': kind, 'counts': [[okname, rng.randint(1, 4)]]},
+                {'kind': kind, 'counts': [[okname, 1], [koname, rng.randint(1, 3)]]}, gen_stats_case(rng, kind)]
+    else:
+        subs = [{'kind': 'bylabels', 'nlab': 1, 'rows': [[['a'], 2, 0, 2], [['b'], 1, 0, 1]], 'missing': 0},
+                {'kind': 'bylabels', 'nlab': 1, 'rows': [[['a'], 2, 0, 2], [['b'], 0, 1, 1]], 'missing': 0},
+                gen_labels_case(rng)]
+    rng.shuffle(subs)
+    if rng.random() < 0.3:
+        subs.append(gen_data_case(rng, rng.choice(DATA_KINDS)))
+        subs[-1].pop('ops', None)
+    return {'kind': 'history', 'subs': subs, 'mut': rng.choice(['mark', 'unmark', 'join'])}
 
 
 def gen_cases(ctx):
@@ -1193,6 +1361,8 @@ def gen_cases(ctx):
         cases.append(gen_str_case(rng, safe=i % 2 == 0))
     for i in range(40 if quick else 800):
         cases.append(gen_col_case(rng))
+    for i in range(24 if quick else 300):
+        cases.append(gen_history_case(rng))
     return cases
 
 
@@ -1250,6 +1420,7 @@ def run(ctx):
         ctx.case_seen(rec.case, rec.nontrivial, sample_every=97)
         if rec.renders:
             renders.append((rec.renders, rec.case))
+        renders += [(r, rec.case) for r in rec.extra_renders]
         tops += [(t, rec.case) for t in rec.tops]
         strs += [(s, rec.case) for s in rec.strs]
     groups = [
@@ -1289,7 +1460,7 @@ def replay(ctx, path):
         case = case['case']
     rec = run_case(case)
     print('case:', json.dumps(case))
-    if case['kind'] != 'strtable':
+    if case['kind'] not in ('strtable', 'coltable', 'history'):
         from valjean.javert.representation import Representation
         from valjean.javert.rst import Rst
         from valjean.javert.verbosity import Verbosity
@@ -1306,8 +1477,8 @@ def replay(ctx, path):
     for what, key in rec.failures:
         print('oracle:', key, '::', what[:600])
     bodies = []
-    if rec.renders:
-        bodies.append('Eval vm_compute in (let c := ' + rec.renders + ' in '
+    for text in ([rec.renders] if rec.renders else []) + rec.extra_renders:
+        bodies.append('Eval vm_compute in (let c := ' + text + ' in '
                       '(check_result c, map (fun x => render (fst (fst x)) (fst c) (snd (fst x))) (snd c))).')
     for top in rec.tops:
         bodies.append('Eval vm_compute in (let c := ' + top + ' in (check_top c, run_top (fst (fst c)) (snd (fst c)))).')
